@@ -18,7 +18,7 @@ PROPS = {
  'C07': P('fault_enumeration',
           'fidelity cases = (schema, batch-size script, destination-size script, data seed) over 13 schemas incl. gob-only, pointer, odd-size pointer-free and custom-codec (frame.RegisterOps) types, '
           'empty batches, sizes around 128; damage cases = every single-bit flip and every truncation point of the encoded bytes of small '
-          '3-batch streams (exhaustive per stream) every value of the first byte (length prefix) of every gob message of those streams, and random 1-6 byte bursts on 4-batch streams; thorough adds a coverage-guided fuzz target (Go native fuzzing, 3 000 000 executions from the seed corpus, 9 schemas) whose inputs are judged by the same oracle when they are a prefix of, or within an 8-byte window of, the encoded stream, and structurally (no panic, n within bounds, canaries, earlier frames unchanged, termination) otherwise. Oracle: rows delivered == rows written '
+          '3-batch streams (exhaustive per stream) every value of the first byte (length prefix) of every gob message of those streams, every single-byte substitution (255 values x every byte; quick: one stream), and random 1-6 byte bursts on 4-batch streams; thorough adds a coverage-guided fuzz target (Go native fuzzing, 3 000 000 executions from the seed corpus, 9 schemas) whose inputs are judged by the same oracle when they are a prefix of, or within an 8-byte window of, the encoded stream, and structurally (no panic, n within bounds, canaries, earlier frames unchanged, termination) otherwise. Oracle: rows delivered == rows written '
           '(fidelity); for damage inside a batch: an error, every row delivered before it correct and not beyond the damaged batch. '
           'Non-trivial: fidelity with >=2 batches or a destination size differing from the batch size; every damage case.',
           variants={'quick': ['plain'], 'thorough': ['plain', 'checkptr']}, ulimit_v_kb=6000000,
